@@ -24,6 +24,9 @@ FORMULAS = [
     "y ~ 0 + f*(x + z)", "y ~ f*(x + z)", "y ~ 0 + f*(g + x)", "y ~ f*(g + x)", "y ~ 0 + (g + x)*f", "y ~ 0 + f/(x + z)", "y ~ 0 + f + f:x + f:z",
     "y ~ 0 + C(k)*(x + f)", "y ~ 0 + g + f:(x + g)",
     # one effect expression distributed over two grouping factors, coded differently for each (reduced next to (1|g), full for h)
+    # integer columns of a narrow dtype whose product does not fit it, and 64-bit integers no double represents: new data are computed
+    # exactly as the training data were
+    "y ~ 0 + i8a:i8b", "y ~ 0 + i8a + i8b + i8a:i8b", "y ~ 0 + big + i8a",
     # grouping factors with empty cells: combinations that do not occur, an ordered categorical with an unused category
     "y ~ (1|ga:hb)", "y ~ x + (x|ga:hb)", "y ~ (0 + x|ga:hb) + (1|ga)", "y ~ (1|o4)", "y ~ x + (x|o4)",
     "y ~ (0 + f|g + h) + (1|g)", "y ~ (1|g) + (0 + f|g + h)", "y ~ x + (0 + f:x|g + h) + (1|h)", "y ~ (f|g + h)",
@@ -45,6 +48,9 @@ def frame(seed, n=30):
     d["d0"] = np.concatenate([half, -half])           # symmetric: mean exactly 0.0
     d["c1"] = pd.Categorical(_cover(rng, ["zeta", "alpha", "mid"], n), categories=["zeta", "alpha", "mid", "unused"])
     d["o"] = pd.Categorical(_cover(rng, ["lo", "mid", "hi"], n), categories=["lo", "mid", "hi"], ordered=True)
+    d["i8a"] = rng.integers(20, 120, size=n).astype(np.int8)
+    d["i8b"] = rng.integers(5, 100, size=n).astype(np.int8)
+    d["big"] = (2 ** 53 + 1 + 2 * rng.integers(0, 1000, size=n)).astype(np.int64)
     d["ga"] = _cover(rng, ["u", "v", "w"], n)
     d["hb"] = [{"u": "p", "w": "q"}.get(a, b) for a, b in zip(d["ga"], _cover(rng, ["p", "q"], n))]     # u:q and w:p never occur
     d["o4"] = pd.Categorical(_cover(rng, ["l", "m", "h"], n), categories=["l", "m", "h", "xl"], ordered=True)
